@@ -40,6 +40,8 @@ CONSTANTS
     PEgr,              \* read of up to 4 KiB
     PWstor, PIngr4k,   \* write: temp storage, ingress per 4 KiB
     PVerify,           \* verify sector
+    RenewDist, RefreshDist, \* a renewal / refresh is accepted only while the proof height is at least this many
+                       \* blocks away (the new / existing proof height must leave the minimum contract duration)
     DevFreeAlias,      \* named deviation (finding C09-free-sectors-alias, fixed in 6350cf0; self-test only): free swaps in place
     DevReplDup         \* named deviation (open finding C15-replenish-duplicates; self-test only): duplicates overshoot
 
@@ -206,6 +208,16 @@ Mine(n) ==
     /\ reply' = NoneR
     /\ calls' = <<>>
     /\ UNCHANGED <<rev, sigs, roots, stored, acct, pool, pex, att, olds, lock, sess>>
+
+\* a write-sector upload abandoned INSIDE the message body: a valid request, then only part of the announced
+\* data (part 0: none, 1: one byte, 2: half, 3: all but one byte), then the stream is closed.  Nothing may
+\* change: no debit (a debit is the price of a write that is then carried out), nothing stored.
+PartialWrite(s, a, units, part) ==
+    /\ Idle(s)
+    /\ act' = [op |-> "PartialWrite", s |-> s, a |-> a, units |-> units, part |-> part]
+    /\ reply' = AbortR
+    /\ calls' = <<>>
+    /\ UNCHANGED <<data, lock, sess>>
 
 \* a request that never arrives completely (cut after the RPC id / in the middle)
 Truncated(s) ==
@@ -378,7 +390,9 @@ Round2Repl(s, sf) ==
     /\ act' = [op |-> "Round2Repl", s |-> s, sf |-> sf, cost |-> sess[s].cost, kind |-> sess[s].kind,
                accs |-> [i \in DOMAIN sess[s].deps |-> sess[s].deps[i].a]]
     /\ reply' = NoneR
-    /\ IF sf = "ok"
+    \* sf = "dedup": the renter signs for the total over the DISTINCT listed accounts (first reported deposit of
+    \* each) instead of the sum of all reported deposits: the same revision, as a repeated account reports 0
+    /\ IF sf \in {"ok", "dedup"}
        THEN /\ rev' = Pay(rev, sess[s].cost, 0)
             /\ sigs' = [r |-> rev', h |-> rev']
             /\ IF sess[s].kind = "accts"
@@ -516,8 +530,7 @@ NewRev(r, kind, A, C, x) ==
 BeginRenew(s, kind, pf, cf, rf, A, C) ==
     /\ Idle(s)
     /\ act' = [op |-> "BeginRenew", s |-> s, kind |-> kind, pf |-> pf, cf |-> cf, rf |-> rf, na |-> A, nc |-> C]
-    \* (a renewal / refresh is accepted only while the proof height is still far away: tipd <= -2 stands for that)
-    /\ IF pf # "ok" \/ Locked \/ tipd > -2 \/ cf # "ok" \/ rf \notin {"ok", "poolbad"}
+    /\ IF pf # "ok" \/ Locked \/ tipd > -(IF kind = "renew" THEN RenewDist ELSE RefreshDist) \/ cf # "ok" \/ rf \notin {"ok", "poolbad"}
        THEN Reject(s, "renew")
        ELSE /\ sess' = [sess EXCEPT ![s] = [IdleS EXCEPT !.rpc = "renew", !.round = 1, !.kind = kind, !.pend = Rep("resp", 0, <<>>),
                                                        !.cost = A, !.coll = C, !.late = (rf = "poolbad")]]
@@ -583,12 +596,12 @@ SignedCommit   == [][Committed => sigs'.r = rev' /\ sigs'.h = rev']_vars
 CommitHoldsLock == [][Committed => (lock' = act'.s /\ lock \in {0, act'.s})]_vars
 Flawed(a) ==
     \/ ("pf" \in DOMAIN a /\ a.pf # "ok") \/ ("cf" \in DOMAIN a /\ a.cf # "ok")
-    \/ ("sf" \in DOMAIN a /\ a.sf # "ok") \/ ("tf" \in DOMAIN a /\ a.tf # "ok")
+    \/ ("sf" \in DOMAIN a /\ a.sf \notin {"ok", "dedup"}) \/ ("tf" \in DOMAIN a /\ a.tf # "ok")
     \/ ("rf" \in DOMAIN a /\ a.rf # "ok") \/ ("af" \in DOMAIN a /\ a.af # "ok")
 BadRequestIsNoop == [][Flawed(act') => UNCHANGED data]_vars
 
 \* C09: whatever happens, an abort / failure / hang-up is a no-op, and roots change only with a commit
-AbortIsNoop == [][act'.op \in {"Abort", "Truncated", "Deliver", "Finish", "Ignored"} => UNCHANGED data]_vars
+AbortIsNoop == [][act'.op \in {"Abort", "Truncated", "PartialWrite", "Deliver", "Finish", "Ignored"} => UNCHANGED data]_vars
 RootsOnlyWithCommit == [][roots' # roots => (Committed /\ rev'.commit = roots')]_vars
 RenewalKeepsRoots == [][Renewal /\ rev' # rev => (rev'.num = 0 /\ rev'.commit = rev.commit /\ roots' = roots /\ sigs'.r = rev' /\ sigs'.h = rev' /\ lock = act'.s)]_vars
 
